@@ -6,6 +6,8 @@
 package c16
 
 import (
+	paramproposal "github.com/cosmos/cosmos-sdk/x/params/types/proposal"
+	"github.com/cosmos/cosmos-sdk/x/params"
 	"sort"
 	"bytes"
 	"fmt"
@@ -142,9 +144,11 @@ func Run(r *ev.Run, tier string) (evals, nontrivial int64) {
 		})},
 		{"module disabled", mk(func(ctx sdk.Context) {
 			register(ctx)
-			p := c.App.AggregateKeeper.GetParams(ctx)
-			p.EnableAggregate = false
-			c.App.AggregateKeeper.SetParams(ctx, p)
+			// switched off the way governance does it: parameter-change proposal addressing the raw key
+			prop := paramproposal.NewParameterChangeProposal("t", "d", []paramproposal.ParamChange{{Subspace: aggregatetypes.ModuleName, Key: "EnableAggregate", Value: "false"}})
+			if err := params.NewParamChangeProposalHandler(c.App.ParamsKeeper)(ctx, prop); err != nil {
+				panic(err)
+			}
 		})},
 	}
 	var packets []packetCase
